@@ -89,6 +89,14 @@ def main():
             side = rng.choice([None, None, -1, 1])
             w[v] = [thr[v] + (rng.choice([-1, 0, 1]) if side is None or rng.random() < 0.15 else side) for _ in range(N)]
         o = dt_obj(phi, 1, vs_used, factory="StlDiscreteTimeOfflineSpecification")
+        if (ops_of(phi) & TIMED) and rng.random() < 0.25:
+            # bounds written with units, a sampling period other than one default unit: the explainer must read the bounds in samples
+            import c08 as _c08
+            pnum, punit = rng.choice([(500, "ms"), (2, "s"), (250, "us"), (100, "ms"), (1, "s")])
+            default = rng.choice(["s", "ms"])
+            written, _st = _c08.write_ast(rng, phi, pnum * 10 ** _c08.E[punit], default)
+            o = dt_obj(phi, 1, vs_used, factory="StlDiscreteTimeOfflineSpecification", text="out = " + to_text(written, 1), written=written,
+                       units={"def": default, "pnum": pnum, "pden": 1, "punit": punit}, unit=default, set_period=[pnum, punit, 0.1])
         evs = [ev_parse(), ev_evaluate(range(N), w), {"o": 1, "a": "explain"}]
         if rng.random() < 0.25:
             # the same object evaluates and explains a second (and third) trace: nothing of the earlier report may survive
